@@ -16,3 +16,17 @@ pub open spec fn iso_spec(dt: DateTime) -> Seq<char> {
     Seq::<char>::empty() + pad_int(dt.year as int, 4) + seq!['-'] + pad_int(dt.month as int, 2) + seq!['-'] + pad_int(dt.day as int, 2) + seq!['T']
         + pad_int(dt.hour as int, 2) + seq![':'] + pad_int(dt.min as int, 2) + seq![':'] + pad_int(dt.sec as int, 2) + seq!['Z']
 }
+
+// ---- log file names (LogFile::create): `.YYYYMMDDTHHMMSSZ-n` after the prefix.  OsText stands for the OsString being built
+// (rule S1 stand-in for `path_str.push(..)`: assumed to append the text)
+#[verifier::external_body]
+pub struct OsText { _p: () }
+impl OsText { pub uninterp spec fn text(&self) -> Seq<char>; }
+#[verifier::external_body]
+pub fn os_push(p: &mut OsText, s: String)
+    ensures final(p).text() == old(p).text() + s@
+{ unimplemented!() }
+pub open spec fn log_suffix(dt: DateTime, n: u64) -> Seq<char> {
+    Seq::<char>::empty() + seq!['.'] + pad_int(dt.year as int, 4) + pad_int(dt.month as int, 2) + pad_int(dt.day as int, 2) + seq!['T']
+        + pad_int(dt.hour as int, 2) + pad_int(dt.min as int, 2) + pad_int(dt.sec as int, 2) + seq!['Z', '-'] + dec_int(n as int)
+}
